@@ -230,7 +230,7 @@ namespace Givaro {
         size_t sP = P.size();
         if (sP == 0)  {
             R.resize(1);
-            _domain.neg(R[0],Val);
+            _domain.assign(R[0],Val);
         }
         else {
             neg(R, P);
